@@ -63,6 +63,50 @@ P = {
          'Tie: ReferenceDatabase.load / load_from_dir on scratch SQLite genome sets + signature files with permuted / padded / incomplete IDs for the four ID attributes; '
          'locate_files on generated directory listings; query() distance rows vs the real pairwise distance to the signature stored under each genome\'s ID.',
          '§5 C04', 'SQLAlchemy/SQLite/h5py return stored data; unique IDs (schema constraints).'),
+ 'C06': (True, 'Lean 4 theorems (invariance of the spec under the symmetries; FASTA render/parse round-trip) + correspondence on file variants',
+         'Theorems: specMem_revcomp_any / _perm / _case / _union and the signature-level corollaries (signature_union: no k-mer across a contig boundary), parse_render for every width, '
+         'LF/CRLF, with/without final newline, guess_iff (compression from the first two bytes). Tie: calc_file_signature on variants of generated multi-contig genomes; parsed records vs '
+         'the Lean FASTA model; file signature = Lean union of the real per-contig signatures, identical across variants.',
+         '§5 C06', 'Biopython FASTA parsing / gzip are modelled and compared on the generated shapes only.'),
+ 'C08': (True, 'Lean 4 theorems (the chunked matrix pipeline is a map over the inputs) + correspondence on the real CLI',
+         'Theorems: pipeline_eq_spec (via C05.matrix_cells), row_local, batch_independent (any batch, position, chunk size), rows_perm, rows_length, sequenceFiles_* and label derivation. '
+         'Tie: gambit query over batches x orders x {positional, list file + --ldir, signature file} x gzip twins x csv/json/archive x progress x -c; every row must equal the row the real CLI '
+         'prints for that genome alone, labels derived in Lean.',
+         '§5 C08', 'click parsing, process pools and the exporters are exercised, not modelled; timestamps/paths excluded from a row.'),
+ 'C12': (True, 'Lean 4 theorems (representation round-trip; both write paths agree; refusal of unmarked files) + correspondence incl. raw HDF5 datasets',
+         'Theorems: read_write, write_paths_agree, writeSlices_eq, split_concat, foreign_refused, load_only_marked. Tie: dump_signatures/load_signatures over containers x ID kinds x Unicode/nested '
+         'metadata x compression x k in 1..32; stored values/bounds vs the Lean store model; index expressions on the loaded object vs list semantics; foreign contents must raise SignaturesFileError.',
+         '§5 C12', 'h5py/HDF5 as a key-value store (trusted to return what was stored).'),
+ 'C13': (True, 'Lean 4 theorems (every completion order yields the file-order list; any failing file fails the call) + exhaustive schedule enumeration through a harness executor',
+         'Theorems: collect_any_order, collect_error(+source), no_partial_list, never_assertion, seq_agrees_concurrent. Tie: calc_file_signatures driven through all completion orders of <= 4/6 files by a '
+         'harness-owned executor stepped by a harness progress meter, failing file at every position, plus sequential mode and real thread/process pools; model instantiated with the real single-file results.',
+         '§5 C13', 'concurrent.futures semantics (as_completed, Future.result) assumed; real pools sampled.'),
+ 'C14': (True, 'Lean 4 theorems (decision table: run implies one parameter set everywhere; any disagreement is an error) + correspondence over all option combinations',
+         'Theorems: run_implies_same_params, mismatch_is_error, explicit_vs_query/ref_is_error, defaults_source, consistent_runs, querySig_run_iff, create_exclusive/sources, explicit_both_or_neither. '
+         'Tie: gambit dist (3 x 5 sources x parameter relations x explicit options), query -s, signatures create; observed exit status, output existence and which candidate parameter set reproduces the output.',
+         '§5 C14, §4.2', 'click parsing trusted.'),
+ 'C16': (True, 'Lean 4 theorems (CSV write/parse round-trip state machine; label derivation; 4-decimal rounding is nearest/half-even; square = self matrix) + byte-exact correspondence',
+         'Theorems: csv_roundtrip(_crlf), distCsv_parse, label_spec, fmt4_nearest, square_eq_self_matrix. Tie: gambit dist over the 3 x 5 ways of supplying the sides; the Lean distCsv instantiated with the '
+         'real pairwise bit patterns must equal the output bytes; CSV model vs CPython csv; fmt4 vs format(x, "0.4f").',
+         '§5 C16', 'CPython float formatting validated by stream, click parsing trusted.'),
+ 'C17': (True, 'Lean 4 theorems about the linkage-to-tree conversion (leaves, non-negative branches, ultrametric, path = 2 x merge height) + a Lean checker applied to the printed tree',
+         'Theorems: leaves_perm, branch_nonneg, ultrametric, path_eq_twice_merge_height for every ValidLinkage. Tie: gambit tree output parsed and checked by GambitV.checkTree against the real pairwise '
+         'distances (leaves = labels once, binary, >= 0, ultrametric, every merge a valid average-linkage step) — SciPy/Biopython output is checked per run, not trusted. PARTIAL: float64 subtraction and '
+         'the 8-significant-digit Newick format enter as a tolerance.',
+         '§5 C17', 'exact scaling of all numbers of a case by the harness; tolerance 1e-8 per branch.'),
+ 'C18': (True, 'Lean 4 theorems (state-machine invariant: durable data unchanged over every history; commit raises; flush is a no-op) + hash/open-mode/SQL recording',
+         'Theorems: durable_invariant, txn_stays_empty, commit_raises, flush_noop, history_rows, dbOpens_never_write. Tie: histories of CLI commands and library calls (failing ones interleaved) on a scratch '
+         'copy: sha256 and directory listing unchanged, every open of a database file is a read, no SQL other than SELECT/PRAGMA; session histories vs the Lean ReadOnlySession machine. PARTIAL: OS/SQLite/HDF5 assumed.',
+         '§5 C18', 'recording wrappers installed by the harness process.'),
+ 'C19': (True, 'Lean 4 theorems (crash-prefix invariant over the writer trace) + kill-at-every-storage-call correspondence',
+         'Theorems: crash_never_loads, loads_implies_complete, complete_loads_exact, writerTrace_no_flush, writerTrace_close_last. Tie: the real writer killed (os._exit in a forked child) before each '
+         'h5py call, both write paths, small and multi-megabyte payloads; the real loader must raise before the final close and load exactly afterwards; recorded call trace = Lean writer trace. '
+         'PARTIAL: HDF5 flush policy is the sampled assumption.',
+         '§5 C19', 'os._exit models a crash; libhdf5 behaviour assumed.'),
+ 'C11': (False, 'Lean 4 theorems (CSV round-trip with the exact excluded class; archive keys-only round-trip) + correspondence on real result sets',
+         'Theorems: csv_parse, csv_columns, fieldOk_false_iff, archive_roundtrip, archive_needs_unique_keys. Tie: exporters and ResultsArchiveReader on results of real queries on scratch databases with '
+         'awkward names; CSV text = Lean writeCsv of rows built from the real objects and parses back; JSON projections; archive equal under == and field by field. Open finding C11-F1 (bare CR).',
+         '§5 C11, §4.5', 'Python json/csv parsing of outputs; float str().'),
 }
 
 REASON_PENDING = 'check not built yet in this round (machinery under construction; see DESIGN.md §8 build order)'
